@@ -316,7 +316,7 @@ func (pd *perBitData) parseOctetString(extensed bool, lowerBoundPtr *int64, uppe
 				err := fmt.Errorf("per data out of range")
 				return octetString, err
 			}
-			octetString = pd.bytes[pd.byteOffset : pd.byteOffset+unsignedUB]
+			octetString = append(octetString, pd.bytes[pd.byteOffset:pd.byteOffset+unsignedUB]...)
 			pd.byteOffset += uint64(ub)
 			perTrace(1, perBitLog(8*unsignedUB, pd.byteOffset, pd.bitsOffset, octetString))
 		} else {
